@@ -191,6 +191,11 @@ def customRuleOf (flag : Val) (rule : String) (c v : Val) : Option (List String)
   | "is_odd" =>
     some (if c.truthy then (match v with | .int n => if n % 2 == 0 then ["must be odd"] else [] | _ => []) else [])
   | "needs_cfg" => some (if Val.pyEq c flag then [] else ["configuration not inherited"])
+  | "is_not_negative" =>
+    some (if c.truthy then (match v with
+      | .int n => if n < 0 then ["must not be negative"] else []
+      | .flt m _ => if m < 0 then ["must not be negative"] else []
+      | _ => []) else [])
   | _ => none
 
 def envOfJson (j : Json) : Except String Env := do
